@@ -422,6 +422,13 @@ func (e c12Engine) Run(scAny any, keep bool) (out core.Outcome) {
 	if sc.CustomOpen {
 		cfg.OpenFile = fs.Open
 	}
+	// the working directory must be empty at the start of every run (a stray left by an earlier
+	// scenario of this process has already been reported there)
+	if ents, err := os.ReadDir(cwd); err == nil {
+		for _, en := range ents {
+			_ = os.RemoveAll(filepath.Join(cwd, en.Name()))
+		}
+	}
 	before := dirListing(fs.Dir)
 	cwdBefore := dirListing(cwd)
 	res := execProgram(prog, cfg)
